@@ -150,6 +150,7 @@ func (c *control) readDir() {
 		case 'v':
 			var p any
 			if 0 <= c.argPos {
+				c.needArg()
 				p = c.args[c.argPos]
 				c.argPos++
 			}
@@ -307,6 +308,7 @@ func (c *control) dirMoney(colon, at bool, params []any) {
 	padchar := c.getCharParam(3, params, []byte{' '})
 	var val float64
 	if 0 <= c.argPos {
+		c.needArg()
 		arg := c.args[c.argPos]
 		c.argPos++
 		if r, ok := arg.(slip.Real); ok {
@@ -377,6 +379,7 @@ func (c *control) dirPercent(colon, at bool, params []any) {
 			c.invalidDirParam(c.str, c.pos)
 		}
 	}
+	c.checkCount(n)
 	for ; 0 < n; n-- {
 		c.out = append(c.out, '\n')
 	}
@@ -397,6 +400,7 @@ func (c *control) dirAmp(colon, at bool, params []any) {
 	if 0 < len(c.out) && c.out[len(c.out)-1] == '\n' {
 		n--
 	}
+	c.checkCount(n)
 	for ; 0 < n; n-- {
 		c.out = append(c.out, '\n')
 	}
@@ -501,6 +505,9 @@ func (c *control) dirMove(colon, at bool, params []any) {
 		c.argPos = n
 	default:
 		c.argPos += n
+	}
+	if c.argPos < 0 || len(c.args) < c.argPos {
+		slip.ErrorPanic(c.scope, 0, "no argument %d to go to at %d of %q", c.argPos, c.pos, c.str)
 	}
 }
 
@@ -757,6 +764,7 @@ func (c *control) dirA(colon, at bool, params []any) {
 	if !colon && !at && len(params) == 0 { // bare ~A, the most common case
 		var arg slip.Object
 		if 0 <= c.argPos {
+			c.needArg()
 			arg = c.args[c.argPos]
 			c.argPos++
 		}
@@ -782,6 +790,7 @@ func (c *control) dirC(colon, at bool, params []any) {
 		ok  bool
 	)
 	if 0 <= c.argPos {
+		c.needArg()
 		arg, ok = c.args[c.argPos].(slip.Character)
 		c.argPos++
 	}
@@ -814,6 +823,7 @@ func (c *control) dirInt(colon, at bool, params []any, base int) {
 		neg bool
 	)
 	if 0 <= c.argPos {
+		c.needArg()
 		arg = c.args[c.argPos]
 		c.argPos++
 	}
@@ -878,6 +888,7 @@ func (c *control) dirInt(colon, at bool, params []any, base int) {
 func (c *control) getEFGarg(ff *floatFormatter) {
 	var arg slip.Object
 	if 0 <= c.argPos {
+		c.needArg()
 		arg = c.args[c.argPos]
 		c.argPos++
 	}
@@ -1249,7 +1260,7 @@ func (c *control) dirR(colon, at bool, params []any) {
 					words = append(words, one[d-'0'])
 				}
 			}
-			if zero {
+			if zero && 0 < len(trip) {
 				words = words[:len(words)-1]
 			}
 			if i < 0 {
@@ -1284,6 +1295,7 @@ func (c *control) dirAS(colon, at bool, params []any, p *slip.Printer) {
 		pad []byte
 	)
 	if 0 <= c.argPos {
+		c.needArg()
 		arg = c.args[c.argPos]
 		c.argPos++
 	}
@@ -1388,6 +1400,7 @@ func (c *control) dirT(colon, at bool, params []any) {
 func (c *control) dirW(colon, at bool, params []any) {
 	var arg slip.Object
 	if 0 <= c.argPos {
+		c.needArg()
 		arg = c.args[c.argPos]
 		c.argPos++
 	}
@@ -1419,6 +1432,7 @@ func (c *control) dirTilde(colon, at bool, params []any) {
 			c.invalidDir(c.str, c.pos)
 		}
 	}
+	c.checkCount(n)
 	for ; 0 < n; n-- {
 		c.out = append(c.out, '~')
 	}
@@ -1654,8 +1668,26 @@ func (c *control) dirPage(colon, at bool, params []any) {
 			c.invalidDir(c.str, c.pos)
 		}
 	}
+	c.checkCount(n)
 	for ; 0 < n; n-- {
 		c.out = append(c.out, '\f')
+	}
+}
+
+// needArg raises an error when the arguments are used up.
+func (c *control) needArg() {
+	if len(c.args) <= c.argPos {
+		slip.ErrorPanic(c.scope, 0, "missing argument for directive at %d of %q", c.pos, c.str)
+	}
+}
+
+// maxDirParam bounds column, padding and count parameters of a directive.
+const maxDirParam = 1 << 24
+
+// checkCount raises an error for a count or column beyond maxDirParam.
+func (c *control) checkCount(n int) {
+	if maxDirParam < n {
+		slip.ErrorPanic(c.scope, 0, "directive parameter is too large at %d of %q", c.pos, c.str)
 	}
 }
 
@@ -1668,12 +1700,17 @@ func (c *control) getIntParam(pos int, params []any, defVal int, notNeg bool) in
 			if notNeg && tp < 0 {
 				slip.ErrorPanic(c.scope, 0, "directive parameter is negative at %d of %q", c.pos, c.str)
 			}
+			c.checkCount(tp)
 			return tp
 		case slip.Integer:
 			n := int(tp.RealValue())
 			if notNeg && n < 0 {
 				slip.ErrorPanic(c.scope, 0, "directive parameter is negative at %d of %q", c.pos, c.str)
 			}
+			if !tp.IsInt64() {
+				n = maxDirParam + 1
+			}
+			c.checkCount(n)
 			return n
 		default:
 			c.invalidDir(c.str, c.pos)
